@@ -1,0 +1,191 @@
+//go:build verif
+
+// Contracts for package iam, checked by /verif/govc (comment-only; not part of any normal build).
+
+package iam
+
+// ---- assumed summaries of collaborators (trusted, listed in the evidence) ----
+
+//@ func pe.ParseEnvelope
+//@   trusted
+//@   benign
+//@   ensures isNilIface(result.1) ==> result.0 != nil
+//@ func pe.ParsePresentationSubmission
+//@   trusted
+//@   benign
+//@   ensures isNilIface(result.1) ==> result.0 != nil
+//@ func (vcr.VCR).Verifier
+//@   trusted
+//@   benign
+//@   ensures !isNilIface(result)
+//@ func (verifier.Verifier).VerifyVP
+//@   trusted
+//@   benign
+//@ func (policy.PDPBackend).PresentationDefinitions
+//@   trusted
+//@   benign
+//@ func (storage.Engine).GetSessionDatabase
+//@   trusted
+//@   benign
+//@   ensures !isNilIface(result)
+//@ func (storage.SessionDatabase).GetStore
+//@   trusted
+//@   benign
+//@   ensures !isNilIface(result)
+//@ func (storage.SessionStore).Get
+//@   trusted
+//@   modifies args
+//@ func (storage.SessionStore).Put
+//@   trusted
+//@   benign
+//@ func (storage.SessionStore).Delete
+//@   trusted
+//@   benign
+//@ func (storage.SessionStore).GetAndDelete
+//@   trusted
+//@   modifies args
+//@ func (auth.AuthenticationServices).PublicURL
+//@   trusted
+//@   benign
+//@   ensures result != nil
+//@ func (pe.PresentationSubmission).Validate
+//@   trusted
+//@   benign
+//@ func dpop.Parse
+//@   trusted
+//@   benign
+//@ func credential.PresentationIssuanceDate
+//@   trusted
+//@   benign
+//@ func credential.PresentationExpirationDate
+//@   trusted
+//@   benign
+//@ func time.Now
+//@   trusted
+//@   benign
+
+// ---- C02: the presentation exchange state ----
+
+//@ func newPEXConsumer
+//@   prop C02
+//@   modifies nothing
+//@   ensures [fresh-empty-state] result != nil && isFresh(result) && result.RequiredPresentationDefinitions == requiredPresentationDefinitions
+//@        && forall k string :: !(k in result.Submissions) && !(k in result.SubmittedEnvelopes)
+
+//@ func (*PEXConsumer).isFulfilled
+//@   inline
+
+// nil means: nothing left to fulfil for the organization wallet nor for the user wallet.
+//@ func (*PEXConsumer).next
+//@   prop C02
+//@   modifies nothing
+//@   ensures [nothing-left-means-all-fulfilled] result.1 == nil ==>
+//@        (pe.WalletOwnerOrganization in v.RequiredPresentationDefinitions ==> v.RequiredPresentationDefinitions[pe.WalletOwnerOrganization].Id in v.Submissions)
+//@     && (pe.WalletOwnerUser in v.RequiredPresentationDefinitions ==> v.RequiredPresentationDefinitions[pe.WalletOwnerUser].Id in v.Submissions)
+
+// A submission is recorded only for a required, not yet fulfilled definition, and only after
+// PresentationSubmission.Validate accepted it against exactly that definition and this envelope.
+//@ func (*PEXConsumer).fulfill
+//@   prop C02
+//@   modifies *v.Submissions, *v.SubmittedEnvelopes
+//@   loop 1 invariant definition == nil
+//@   call mapupdate #1 requires [recorded-only-after-validation-against-a-required-definition]
+//@        isNilIface(ret(call (pe.PresentationSubmission).Validate #1).1) && same(arg(call (pe.PresentationSubmission).Validate #1, 0), submission)
+//@        && same(arg(call (pe.PresentationSubmission).Validate #1, 1), envelope) && arg(call (pe.PresentationSubmission).Validate #1, 2).Id == submission.DefinitionId
+//@        && !(old(submission.DefinitionId in v.Submissions)) && arg(1) == submission.DefinitionId && same(arg(2), submission)
+//@   ensures [recorded] isNilIface(result) ==> submission.DefinitionId in v.Submissions
+
+// ---- C02: per-presentation checks of the service-to-service flow ----
+
+//@ func validateS2SPresentationMaxValidity
+//@   prop C02 C19
+//@   safety
+//@   modifies nothing
+//@   ensures [both-dates-present-and-window-bounded] isNilIface(result) ==>
+//@        ret(call credential.PresentationIssuanceDate #1) != nil && ret(call credential.PresentationExpirationDate #1) != nil
+//@        && same(arg(call credential.PresentationIssuanceDate #1, 0), presentation) && same(arg(call credential.PresentationExpirationDate #1, 0), presentation)
+//@        && int64(ret(call (time.Time).Sub #1)) <= int64(s2sMaxPresentationValidity)
+
+// From the property statement: the presenter is the subject of the presented credentials, and every
+// presentation of one request has the same presenter.
+//@ func validatePresentationSigner
+//@   prop C02 C19
+//@   safety
+//@   ensures [signer-iff-ok] isNilIface(result.1) ==> result.0 != nil
+//@   ensures [presenter-is-subject-of-its-credentials] isNilIface(result.1) && len(presentation.VerifiableCredential) > 0 ==>
+//@        isNilIface(ret(call credential.PresenterIsCredentialSubject #1).1) && result.0 == ret(call credential.PresenterIsCredentialSubject #1).0
+//@        && same(arg(call credential.PresenterIsCredentialSubject #1, 0), presentation)
+//@   ensures [same-presenter-as-the-presentations-before] isNilIface(result.1) && !expectedCredentialSubjectDID.Empty() ==> result.0.Equals(expectedCredentialSubjectDID)
+
+//@ func (Wrapper).subjectToBaseURL
+//@   prop C02
+//@   pure heap
+
+//@ func (Wrapper).validatePresentationAudience
+//@   prop C02 C19
+//@   safety
+//@   loop 1 invariant true
+//@   ensures [addressed-to-this-authorization-server] isNilIface(result) ==> did(call (*url.URL).String #1)
+//@        && (exists k int :: 0 <= k && k < len(audience) && audience[k] == ret(call (*url.URL).String #1))
+//@        && same(*arg(call (*url.URL).String #1, 0), ret(call (Wrapper).subjectToBaseURL #1)) && arg(call (Wrapper).subjectToBaseURL #1, 1) == subject
+
+//@ func dpopFromRequest
+//@   prop C02
+//@   assume-benign
+
+//@ func (Wrapper).presentationDefinitionForScope
+//@   prop C02
+//@   assume-benign
+//@   ensures [definitions-of-the-requested-scope] isNilIface(result.1) ==> isNilIface(ret(call (policy.PDPBackend).PresentationDefinitions #1).1)
+//@        && result.0 == ret(call (policy.PDPBackend).PresentationDefinitions #1).0 && arg(call (policy.PDPBackend).PresentationDefinitions #1, 2) == scope
+
+//@ func oauthError
+//@   prop C02
+//@   assume-benign
+
+//@ func (Wrapper).s2sNonceStore
+//@   prop C02
+//@   assume-benign
+//@   ensures !isNilIface(result)
+
+// The nonce is stored on every path that read it (burned regardless of the outcome), and success means it was not seen before.
+//@ func (Wrapper).validateS2SPresentationNonce
+//@   prop C02 C05
+//@   assume-benign
+//@   ensures [fresh-nonce-only] isNilIface(result) ==> ret(call extractNonce #1).0 != ""
+//@        && did(call (storage.SessionStore).Get #1) && !isNilIface(ret(call (storage.SessionStore).Get #1)) && ret(call errors.Is #1) == true
+//@        && arg(call (storage.SessionStore).Get #1, 1) == ret(call extractNonce #1).0
+//@   ensures [always-burned] ret(call extractNonce #1).0 != "" ==> did(call (storage.SessionStore).Put #1) && arg(call (storage.SessionStore).Put #1, 1) == ret(call extractNonce #1).0
+//@   ensures [store-failure-is-reported] did(call (storage.SessionStore).Put #1) && !isNilIface(ret(call (storage.SessionStore).Put #1)) ==> !isNilIface(result)
+
+//@ func extractNonce
+//@   prop C02 C19
+//@   safety
+//@   assume-benign
+
+// An access token is created only after every presentation of the envelope passed the validity
+// window, presenter and audience checks, the submission was accepted for the scope's definitions and
+// nothing remains to be fulfilled, every nonce was fresh, and every presentation verified.
+//@ func (Wrapper).handleS2SAccessTokenRequest
+//@   prop C02 C19
+//@   loop 1 invariant pexEnvelope != nil && submission != nil
+//@   loop 1 invariant !did(call (Wrapper).validatePresentationAudience #1) || isNilIface(ret(call (Wrapper).validatePresentationAudience #1))
+//@   loop 2 invariant pexEnvelope != nil && pexConsumer != nil && !did(call (Wrapper).validateS2SPresentationNonce #1) || isNilIface(ret(call (Wrapper).validateS2SPresentationNonce #1))
+//@   loop 3 invariant pexEnvelope != nil && pexConsumer != nil && !did(call (verifier.Verifier).VerifyVP #1) || isNilIface(ret(call (verifier.Verifier).VerifyVP #1).1)
+//@   call validatePresentationSigner #1 requires [after-validity-window-check-of-the-same-presentation]
+//@        isNilIface(ret(call validateS2SPresentationMaxValidity #1)) && same(arg(call validateS2SPresentationMaxValidity #1, 0), arg(0)) && same(arg(1), credentialSubjectID)
+//@   call (Wrapper).validatePresentationAudience #1 requires [after-presenter-check-of-the-same-presentation]
+//@        isNilIface(ret(call validatePresentationSigner #1).1) && same(arg(call validatePresentationSigner #1, 0), arg(1)) && arg(2) == subject
+//@   call (*PEXConsumer).fulfill #1 requires [against-the-definitions-of-the-requested-scope] $done1
+//@        && isNilIface(ret(call (Wrapper).presentationDefinitionForScope #1).1) && arg(call (Wrapper).presentationDefinitionForScope #1, 2) == scope
+//@        && arg(call newPEXConsumer #1, 0) == ret(call (Wrapper).presentationDefinitionForScope #1).0 && arg(0) == ret(call newPEXConsumer #1)
+//@        && same(arg(1), *submission) && same(arg(2), *pexEnvelope)
+//@   call (Wrapper).createAccessToken #1 requires [only-after-all-checks] $done1 && $done2 && $done3
+//@        && isNilIface(ret(call (*PEXConsumer).fulfill #1))
+//@        && same(arg(5), *ret(call newPEXConsumer #1)) && arg(2) == clientID && arg(4) == scope
+//@        && isNilIface(ret(call dpopFromRequest #1).1) && arg(6) == ret(call dpopFromRequest #1).0
+//@        && arg(1) == ret(call (*url.URL).String #1) && same(*arg(call (*url.URL).String #1, 0), ret(call (Wrapper).subjectToBaseURL #1)) && arg(call (Wrapper).subjectToBaseURL #1, 1) == subject
+//@   call (Wrapper).createAccessToken #1 requires [every-required-definition-fulfilled]
+//@        (pe.WalletOwnerOrganization in pexConsumer.RequiredPresentationDefinitions ==> pexConsumer.RequiredPresentationDefinitions[pe.WalletOwnerOrganization].Id in pexConsumer.Submissions)
+//@     && (pe.WalletOwnerUser in pexConsumer.RequiredPresentationDefinitions ==> pexConsumer.RequiredPresentationDefinitions[pe.WalletOwnerUser].Id in pexConsumer.Submissions)
+//@   ensures [token-only-from-createAccessToken] isNilIface(result.1) ==> did(call (Wrapper).createAccessToken #1) && isNilIface(ret(call (Wrapper).createAccessToken #1).1)
